@@ -982,15 +982,27 @@ func checkF7(c *fw.Ctx) {
 		return
 	}
 	selfGuard := false
-	for _, call := range fw.CallsTo(vj, false, fw.NameIs("golang.org/x/crypto/ed25519.Verify", "crypto/ed25519.Verify")) {
-		for _, f := range fw.DomConds(call.Block()) {
-			if strings.Contains(f.Sig, "builtin.len(param:publicKey)") && strings.Contains(f.Sig, "32") {
+	verifySites := deepCallsTo(vj, fw.NameIs("golang.org/x/crypto/ed25519.Verify", "crypto/ed25519.Verify"))
+	for _, dc := range verifySites {
+		blk := dc.Call.(ssa.Instruction).Block()
+		facts := fw.CondStrings(blk)
+		if dc.Fr != nil {
+			facts = append(facts, fw.DeepFacts(dc.Fr, blk)...)
+		}
+		for _, f := range facts {
+			if strings.Contains(f, "builtin.len(") && strings.Contains(f, "32") && !strings.Contains(f, "64") {
 				selfGuard = true
 			}
 		}
 	}
 	if selfGuard {
 		c.Ok(rule, "VerifyJSON tests the key length itself", c.P.Pos(vj.Pos()), "")
+		return
+	}
+	if len(verifySites) == 0 {
+		// the signature check sits behind a dispatch the rule cannot follow (a stage list):
+		// whether the length is tested on the way is not visible
+		c.Undecided(rule, "VerifyJSON tests the key length itself", "no call of ed25519.Verify was found in VerifyJSON and its helpers")
 		return
 	}
 	n := 0
